@@ -355,7 +355,7 @@ def _verify_case(size, count, inb, ond, s_old, s_new):
     class LD:
         @staticmethod
         def ilsdrf(path, **kw): return iter(sorted(fos.truth.keys()))
-    rb = RB.DigitalRFRingbuffer.__new__(RB.DigitalRFRingbuffer)
+    rb = chload.new_obj(RB.DigitalRFRingbuffer)
     rb.path = '/w'; rb.starttime = None; rb.endtime = None; rb.include_drf = True; rb.include_dmd = True; rb.event_handler = h
     old = RB.list_drf; RB.list_drf = LD
     try:
